@@ -378,6 +378,14 @@ def build_catalogue():
     op("mbxml.write_infotime_naive")(lambda: ((lambda: ()), (lambda: MBXML.write_infotime(_dtm.datetime(2024, 2, 29, 12, 34, 56)))))
     op("tmp.message_without_request_id")(lambda: ((lambda: ()), (lambda: _TMP(opcode=_TMPS.SendPrivateMessage, source_ip=_RIP(radio_id=1001), destination_ip=_RIP(radio_id=1002),
                                                                                    text_data="hello".encode("utf-16-le")).as_bytes())))
+    # objects built from fields and handed back as objects (looked at and serialised twice by run_op)
+    op("tmp.object_with_option_data_and_the_flag_left_off")(lambda: ((lambda: ()), (lambda: _TMP(opcode=_TMPS.SendPrivateMessage, source_ip=_RIP(radio_id=1001), destination_ip=_RIP(radio_id=1002),
+                                                                                                     text_data="hi".encode("utf-16-le"), option_data=b"\x01\x02", request_id=7))))
+    op("tmp.object_with_option")(lambda: ((lambda: ()), (lambda: _TMP(opcode=_TMPS.SendGroupMessage, source_ip=_RIP(radio_id=1001), destination_ip=_RIP(radio_id=9),
+                                                                          text_data="hi".encode("utf-16-le"), has_option=True, option_data=b"\x01\x02", request_id=7))))
+    op("hrnp.object_wrapping_tmp_with_option_data")(lambda: ((lambda: ()), (lambda: HRNP(opcode=__import__("okdmr.dmrlib.hytera.pdu.hrnp", fromlist=["HRNPOpcodes"]).HRNPOpcodes.DATA,
+                                                                                          data=_TMP(opcode=_TMPS.SendPrivateMessage, source_ip=_RIP(radio_id=1001), destination_ip=_RIP(radio_id=1002),
+                                                                                                    text_data="hi".encode("utf-16-le"), option_data=b"\x01\x02", request_id=7)))))
     op("tmp.short_data_without_request_id")(lambda: ((lambda: ()), (lambda: _TMP(opcode=_TMPS.PrivateShortData, source_ip=_RIP(radio_id=1001), destination_ip=_RIP(radio_id=1002),
                                                                                       short_data=b"\x01\x02").as_bytes())))
     # "no fix" is stamped with the date of the call, not with the date the module was imported (true under every clock)
@@ -515,6 +523,18 @@ def run_op(name, keep=False):
                     short += "|CHANGED-BY-LOOKING"
             except Exception:  # noqa: BLE001
                 pass
+            # ... and serialising it twice gives the same octets / bits twice
+            if ok:
+                for ser in ("as_bytes", "as_bits"):
+                    fn = getattr(res, ser, None)
+                    if callable(fn):
+                        try:
+                            if fn() != fn():
+                                ok = False
+                                short += "|SERIALISES-DIFFERENTLY-TWICE"
+                                break
+                        except Exception:  # noqa: BLE001
+                            pass
         if keep:
             return rd, ok, short, res
         scribble(res)
@@ -554,6 +574,8 @@ def run_after_kept(j, kept_obj, kept_digest):
 
 
 def why(short, name):
+    if short.endswith("|SERIALISES-DIFFERENTLY-TWICE"):
+        return "result_object_serialises_differently_the_second_time:" + name, f"the object {name} returned gives other octets the second time it is serialised"
     if short.endswith("|CHANGED-BY-LOOKING"):
         return "result_object_changes_when_looked_at:" + name, f"the object {name} returned differs after repr()/str()/==/len()/hash() on it"
     return "argument_buffer_modified:" + name, f"{name} changed a buffer passed to it"
